@@ -4,7 +4,7 @@
    Part (b): the RPC pending table and Conn.Call correlation (Model/Pending.v):
    theorems over ALL interleavings of the table's atomic steps. *)
 From WK Require Import Base.Base Base.Bytes Gen.Consts_C26 Model.Wire Model.Pending Model.C26Case.
-From WK Require Import Proof.Wire Proof.Wire_monitor Proof.Pending Proof.Pending_monitor.
+From WK Require Import Proof.Wire Proof.Wire_monitor Proof.Pending Proof.Pending_monitor Proof.Pending_conn.
 Open Scope N_scope.
 
 (* ---- (a) every frame header round-trips ---------------------------------- *)
@@ -174,6 +174,17 @@ Theorem c26_pending_model_satisfies_monitor : forall nshards caps ops,
                        (shard_count nshards) []) = 0.
 Proof. intros. cbn [C26_monitor]. rewrite mon_pend_model. reflexivity. Qed.
 Print Assumptions c26_pending_model_satisfies_monitor.
+
+(* conn level (conn.Conn.Call over a scripted peer): every script the model's
+   acceptor accepts satisfies the conn monitor — a call only returns a payload or
+   remote error that the peer wrote for the request id that carried that call's
+   request, and request ids on the wire are pairwise distinct.  [closes_local]:
+   the error handed to a local Close is not one of the peer-originated classes. *)
+Theorem c26_conn_accept_implies_monitor : forall script final,
+  closes_local script = true ->
+  C26_mismatch (C26Conn script final) = false -> C26_monitor (C26Conn script final) = 0.
+Proof. exact conn_case_monitor. Qed.
+Print Assumptions c26_conn_accept_implies_monitor.
 
 (* stress runs: the monitor is the acceptance predicate itself *)
 Theorem c26_stress_monitor_is_acceptance : forall calls,
